@@ -191,9 +191,25 @@ def run(case, tmp):
                 path = "~/" + os.path.basename(path)
             patterns.append(path)
         elif pat[0] == "glob":
-            for fname, c in pat[1]:  # creation order as listed in the case, application order is the sorted one
-                write(json.dumps(nested(c)), fname, sub="g%d" % n)
-            patterns.append(os.path.join(tmp, "g%d" % n, pat[2]))
+            # The order of the statement is the sorted one. The files are laid out so that the order in which the file system
+            # lists them differs from it (creation order, and a common order-preserving name prefix, are varied until it does).
+            gdir = os.path.join(tmp, "g%d" % n)
+            prefixes = ["", "p", "q", "zz", "m1", "k", "w7"] if pat[2] == "*.json" else [""]
+            unsorted_listing = False
+            for prefix in prefixes:
+                for files in (pat[1], list(reversed(pat[1]))):
+                    shutil.rmtree(gdir, ignore_errors=True)
+                    for fname, c in files:
+                        write(json.dumps(nested(c)), prefix + fname, sub="g%d" % n)
+                    listed = [x for x in os.listdir(gdir) if fnmatch.fnmatchcase(x, pat[2])]
+                    unsorted_listing = listed != sorted(listed)
+                    if unsorted_listing or len(listed) < 2:
+                        break
+                if unsorted_listing or len(listed) < 2:
+                    break
+            if len(listed) >= 2:
+                GLOB_STATS["unsorted" if unsorted_listing else "sorted"] += 1
+            patterns.append(os.path.join(gdir, pat[2]))
         elif pat[0] == "missing":
             patterns.append(os.path.join(tmp, "missing%d.json" % n))
         elif pat[0] == "empty":
@@ -266,6 +282,9 @@ def run(case, tmp):
                 os.environ.pop(k, None)
             else:
                 os.environ[k] = v
+
+
+GLOB_STATS = {"unsorted": 0, "sorted": 0}
 
 
 def same(a, b):
@@ -589,7 +608,7 @@ def run_chunk(chunk):
                         if record[0] not in [v[0] for v in viols]:
                             viols.append(record)
             out.append((":".join(sig), nontrivial, viols, {"case": reproducer(case), "result": res[1] if res[0] == "ok" else list(res)}))
-    return out
+    return out, dict(GLOB_STATS, pid=os.getpid())
 
 
 # ---------------------------------------------------------------------------------------------- enumeration
@@ -684,8 +703,8 @@ def enumerate_cases(thorough, rng):
     # ---- E3 the other parse methods
     for method in ("string", "path", "object"):
         for name, nd, build in layouts(False):
-            if name in ("3", "g1", "m1") and not thorough:
-                continue
+            if not thorough and (name in ("3", "g1", "m1") or method == "path" and nd >= 2):
+                continue  # quick bound: parse_path (= parse_string on the file content) only with <= 1 default config file
             for g in itertools.product((1, 2, 3), repeat=nd):
                 for ec in (None, ("str", 1), ("file", 2), ("str", 3), ("file", 4)):
                     for e in (0, 1, 2):
@@ -714,6 +733,8 @@ def enumerate_cases(thorough, rng):
             if not thorough and prefix != "APP" and envmode in ("calloff", "call"):
                 continue
             for method in ("args", "string", "object", "path"):
+                if not thorough and prefix != "APP" and method in ("object", "path"):
+                    continue
                 for g in itertools.product((1, 2, 3), repeat=2):
                     for ec in (None, ("str", 1), ("file", 2), ("str", 3), ("file", 4)):
                         for e in (0, 1, 2):
@@ -812,7 +833,9 @@ def main():
 
 def collect(h, results):
     accepted = 0
-    for chunk in results:
+    glob_stats = {}
+    for chunk, gstats in results:
+        glob_stats[gstats.pop("pid")] = gstats  # cumulative per worker process: keep the last
         for sig, nontrivial, viols, sample in chunk:
             if viols:
                 h.check(False, viols[0][0], viols[0][1], viols[0][2])
@@ -826,6 +849,9 @@ def collect(h, results):
             if nontrivial and not viols and len(h.samples) < 5 and h.evaluations % 1009 == 7:
                 h.sample(sample)
     h.note("cases agreeing with the reference fold: %d" % accepted)
+    srt = sum(g["sorted"] for g in glob_stats.values())
+    h.note("glob layouts: the file system listed the files in an order different from the sorted one in %s" % (
+        "every run" if not srt else "some runs only; in the others the listing was already sorted and the sortedness check is vacuous"))
 
 
 if __name__ == "__main__":
